@@ -202,7 +202,8 @@ Proof.
   unfold get_pending. apply (consume_result (fun r => match r with ROk l => (length l <= 1)%nat | RErr _ => True end)).
   - intros acc. exact I.
   - intros acc i v res acc' E. unfold h_pending in E. injection E as <- _.
-    destruct (i =? _); [|exact I]. destruct (field_of _ v 135) as [[| | | | |[n| | | | | | |]| |]|]; cbn; try lia.
+    destruct (i =? _); [|exact I]. destruct (negb (abort_code v =? 184)); [exact I|].
+    destruct (field_of _ v 135) as [[| | | | |[n| | | | | | |]| |]|]; cbn; try lia.
     destruct (n =? 65535); cbn; lia.
 Qed.
 
